@@ -403,6 +403,18 @@ func (r *Reconciler) reconcileAbort(ctx context.Context, proposal *configapi.Pro
 			return controller.Result{}, nil
 		}
 
+		// If the configuration indexes have already been moved past this proposal (e.g. the process stopped before
+		// the proposal status could be updated), just complete the abort.
+		if config.Status.Committed.Index >= proposal.TransactionIndex &&
+			config.Status.Applied.Index >= proposal.TransactionIndex {
+			proposal.Status.Phases.Abort.End = getCurrentTimestamp()
+			proposal.Status.Phases.Abort.State = configapi.ProposalAbortPhase_ABORTED
+			if err := r.updateProposalStatus(ctx, proposal); err != nil {
+				return controller.Result{}, err
+			}
+			return requeueNext(proposal), nil
+		}
+
 		if config.Status.Committed.Index == proposal.Status.PrevIndex &&
 			config.Status.Applied.Index == proposal.Status.PrevIndex {
 			config.Status.Committed.Index = proposal.TransactionIndex
